@@ -10,7 +10,8 @@ import re, time, os, json
 from .. import core, build, lean, unit
 
 PROP = "C16"
-MODULES = ["NngModel.Props.C16", "NngModel.Props.C16Http", "NngModel.Props.C16Sha1", "NngModel.Props.C16Upgrade"]
+MODULES = ["NngModel.Props.C16", "NngModel.Props.C16Http", "NngModel.Props.C16Sha1", "NngModel.Props.C16Upgrade",
+           "NngModel.Props.C16Queue"]
 ALLOC_LIMIT = 1 << 22
 
 # ------------------------------------------------------------------------------------------ WS
@@ -552,6 +553,15 @@ def run(tier, seed, replay=None):
     tot["cases"] += uc["cases"]; tot["ops"] += uc["ops"]; tot["spec"] += uc["spec"]
     tot["model"] += uc["model"]; tot["crash"] += uc["crash"]
     hist["upgrade"] = uc["op_hist"]; rvh["upgrade"] = uc["rv_hist"]; samples += uc["samples"]; distinct += uc["distinct"]
+    # receive queue of the WebSocket layer: rxq / recvq / pause rule, receives posted late, in bursts, cancelled (vlib/props/c16_queue.py)
+    from . import c16_queue
+    qc, qv = c16_queue.run_part(tier, seed, st, replay)
+    for tag, payload, no_input in qv:
+        v.violation(tag, payload, no_input=no_input)
+        found_input = found_input or not no_input
+    tot["cases"] += qc["cases"]; tot["ops"] += qc["ops"]; tot["spec"] += qc["spec"]
+    tot["model"] += qc["model"]; tot["crash"] += qc["crash"]
+    hist["queue"] = qc["op_hist"]; rvh["queue"] = qc["rv_hist"]; samples += qc["samples"]; distinct += qc["distinct"]
     if not found_input:
         for s in subs:
             if s.res and s.res.model_mismatch:
@@ -586,6 +596,8 @@ def run(tier, seed, replay=None):
     cov["http_rule"] = c16_http.RULE
     cov["upgrade_part"] = {k: uc.get(k, 0) for k in ("cases", "ops", "spec", "model", "crash", "sha_bytes", "wall_s", "emitted_101_judged", "emitted_101_nonconforming")}
     cov["upgrade_rule"] = c16_upgrade.RULE
+    cov["queue_part"] = {k: qc.get(k, 0) for k in ("cases", "ops", "spec", "model", "crash", "completions", "paused_lines", "held_lines", "wall_s")}
+    cov["queue_rule"] = c16_queue.RULE
     core.write_evidence(PROP, tier, seed, "proof", cov,
                         ["Model/Ws.lean, Model/HttpChunk.lean, Model/Base64.lean mirror websocket.c, http_chunk.c, base64.c; tie = differential "
                          "execution on the cases above",
